@@ -149,6 +149,10 @@ def Q.dequeue (q : Q) (bufSize : Nat) : Q × DeqRes :=
 
 def Q.clear (q : Q) : Q := { q with head := 0, tail := 0, count := 0 }
 
+/-- `async_queue_clear` ends with `if (flags & BLOCK_WRITER) platform_event_set(&not_full)` — read from the source on
+    every run -/
+def clearSignals : Bool := Gen.C19.clearSignalsNotFull
+
 /-! ## worker thread -/
 
 inductive WState | stopped | running
